@@ -683,6 +683,7 @@ def c18_streams(ctx):
         threads, fresh = [], []
         for t in range(nthreads):
             ops, its = [], {}
+            nextid = 0
             for _ in range(r.randint(3, 10)):
                 k = r.randrange(nobj)
                 p, f, alpha = objs[k]
@@ -696,7 +697,8 @@ def c18_streams(ctx):
                     ops.append(f"r{k}:{rxlib.cps(s)}:{rxlib.cps(R)}")
                     fresh.append(("call", t, len(ops) - 1, Case(p, f, "replace", s, R)))
                 elif x < 0.5:
-                    j = len(its)
+                    j = nextid          # iterator ids are never reused within a thread
+                    nextid += 1
                     kind = r.choice("ta")
                     ops.append(f"{kind}{k}:{j}:{rxlib.cps(s)}")
                     its[j] = [kind, k, s, 0]
